@@ -143,6 +143,8 @@ def main():
             prelude_check_p.run_prelude_p(ctx)
             import prelude_check_f
             prelude_check_f.run_prelude_f(ctx)
+            import prelude_check_s
+            prelude_check_s.run_prelude_s(ctx)
             ctx.flush()
         except ImportError:
             ctx.notes.append('prelude_check not available')
